@@ -83,7 +83,10 @@ func zzH_SRV() {
 		reqs[i] = r
 	}
 	vGo("server", func() { s.ServeCodec(codec) })
-	together := vChoose("batch", 2) == 1
+	// arrival pattern: one by one (the server goes quiet in between), all at once, or (srv.pacing=1)
+	// one at a time without waiting for the server (frames interleave with running handlers)
+	batch := vChoose("batch", 2+vParam("srv.pacing", 0))
+	together := batch >= 1
 	for _, r := range reqs {
 		var upg []byte
 		if r.kind == 5 {
@@ -95,6 +98,9 @@ func zzH_SRV() {
 		m.deliver(zzRequestEnc(enc, r.seq, upg, r.method, r.args))
 		if !together {
 			vQuiesce()
+		}
+		if batch == 2 {
+			vYield()
 		}
 	}
 	vQuiesce()
@@ -294,6 +300,43 @@ func zzH_SRVp2() {
 	vAtEnd(func() {
 		ra := zzDecodeResponses(ma)
 		vAssert(len(ra) == 1 && vEqBytes(ra[0].Reply, []byte{0x52, 0x41}), "reply-of-own-args")
+		vReach("end")
+	})
+}
+
+// zzH_SRVn: NoCopy server (the handler is handed the read buffer itself, which stays its own until it
+// returns), pool buffers large enough for the frames, slow handlers, frames arriving one at a time
+// while earlier handlers are still running, LIFO buffer reuse: every reply must still be computed from
+// the request's own arguments.
+func zzH_SRVn() {
+	n := vParam("srvn.N", 3)
+	vSetPoolReuse(true)
+	log := &zzLog{}
+	full := vParam("srvn.full", 0)
+	s, svc := zzNewServer(log, vChoose("pipelining", 2) == 1, vChoose("directIO", 2) == 1, true, vChoose("shared", 1+full) == 1)
+	svc.yield = true
+	s.SetBufferSize(64)
+	m := newZZMsgs(8)
+	m.yieldW = false
+	codec := NewServerCodec(&zzBytesCodec{}, nil, m, true, 64)
+	method := []string{"S.Echo", "S.EchoCtx"}[vChoose("handler", 1+full)]
+	vGo("server", func() { s.ServeCodec(codec) })
+	args := make([][]byte, n)
+	for i := 0; i < n; i++ {
+		args[i] = []byte{byte(0x41 + i), byte(0x61 + i)}
+		m.deliver(zzRequest(uint64(i+1), nil, method, args[i]))
+		vYield()
+	}
+	vQuiesce()
+	m.fail(io.EOF)
+	vAtEnd(func() {
+		res := zzDecodeResponses(m)
+		vAssert(len(res) == n, "one-response-per-request")
+		for _, r := range res {
+			if r.Seq >= 1 && r.Seq <= uint64(n) {
+				vAssert(r.Error == "" && vEqBytes(r.Reply, zzReplyFor(args[r.Seq-1])), "reply-of-own-args")
+			}
+		}
 		vReach("end")
 	})
 }
